@@ -274,7 +274,10 @@ func collectTVarFTypeWithSet(visited SSet, recs dict.Dict[string, bool], ft FTyp
 		uname := utName(ut)
 		key := uniToKey(ut)
 		depth := SSetDepth(visited, uname)
-		return frt.IfElse((SSetHasKey(visited, key) || (depth > 3)), (func() []string {
+		frt.IfOnly((depth > 100), (func() {
+			frt.PipeUnit(frt.Sprintf1("Generic union instance nests too deep, maybe ever growing instance of itself: %s", uname), PanicNow)
+		}))
+		return frt.IfElse(SSetHasKey(visited, key), (func() []string {
 			return slice.New[string]()
 		}), (func() []string {
 			SSetPut(visited, key)
@@ -514,7 +517,10 @@ func transTVFTypeWithSet(visited SSet, recs RecTrace, transTV func(TypeVar) FTyp
 		uname := utName(ut)
 		key := uniToKey(ut)
 		depth := SSetDepth(visited, uname)
-		return frt.IfElse((SSetOn(visited, key) || (depth > 3)), (func() FType {
+		frt.IfOnly((depth > 100), (func() {
+			frt.PipeUnit(frt.Sprintf1("Generic union instance nests too deep, maybe ever growing instance of itself: %s", uname), PanicNow)
+		}))
+		return frt.IfElse(SSetOn(visited, key), (func() FType {
 			return ftp
 		}), (func() FType {
 			memo, hit := frt.Destr2(dict.TryFind(recs.DoneU, key))
